@@ -20,7 +20,7 @@ func init() {
 			"on the path where a different report arrives for an occupied slot the constant 1 is stored; PRED the capacity ban is taken exactly when PowerOutput > Capacity*135/100 and PowerOutput <= 2^63-1 (compared cell by cell at limit, limit+1, 2^63-2, 2^63-1, 2^63, 2^64-1), " +
 			"MaxCapacityBuffer is 135 in every configuration; RECORD every path that stores into the slot also appends the report to the recent list and calls the report saver. " +
 			"Order-independence and 'a function of the set of reports' follow from these by a four-state argument (empty / holds r / banned; ban absorbing; replay idempotent); the checker decides the listed structural facts, not that argument. " +
-			"NOT decided: behaviour over long histories as such; Capacity*135 wrap-around for capacities above 2^64/135 (reported as a note).",
+			"the statistics builder publishes, for entry i of a week, slot x+i of that week (C03 builder rules, re-run), and a restart replays every persisted report through this integrator without skipping another device's records (C04 loader rules, re-run). NOT decided: behaviour over long histories as such; Capacity*135 wrap-around for capacities above 2^64/135 (reported as a note).",
 		Assumptions: baseAssumptions,
 		Run:         runC02,
 	})
@@ -227,6 +227,14 @@ func runC02(c *an.Ctx) {
 	} else {
 		c.Undecided("PRED", integ, integ.Pos(), "const:MaxCapacityBuffer", "constant MaxCapacityBuffer not found", "anchor missing")
 	}
+	// "the PUBLISHED value is a function of that slot's reports only": the statistics builder publishes slot x+i of the
+	// requested week for entry i (rules owned by C03), and a restart replays every persisted report through this very
+	// integrator without skipping another device's records (rules owned by C04)
+	if b := findBuilder(p); b != nil {
+		c.Scope(b)
+		buildRules(c, b)
+	}
+	restartRules(c)
 }
 
 func isSlotLoad(t *an.Term) bool {
